@@ -850,7 +850,7 @@ func (x *Exec) mapLen(st *State, t types.Type, m Term) Term {
 	_, ln, _, _, _ := mapNames(t)
 	l := x.heapGet(st, ln, ArrSort(SInt, SInt))
 	r := x.define("maplen", Ite(Eq(m, IntLit(0)), IntLit(0), Select(l, m)))
-	x.assume(Ge(r, IntLit(0)))
+	x.assumeLocal(And(Ge(r, IntLit(0)), Le(r, IntLitStr(memLimit))))
 	return r
 }
 
@@ -870,6 +870,18 @@ func (x *Exec) execRange(fr *Frame, st *State, ins *ssa.Range) {
 	empty := App("(as const "+string(ArrSort(ks, SBool))+")", ArrSort(ks, SBool), False)
 	st.ghost[iterKey(ins)] = VSet{empty}
 	fr.vals[ins] = x.get(fr, ins.X)
+	// counting facts: iterating an unmodified map visits exactly len(m) entries
+	m := x.get(fr, ins.X).(VScalar).T
+	dom, _, _, ks2, _ := mapNames(ins.X.Type())
+	d := x.heapGet(st, dom, ArrSort(SInt, ArrSort(ks2, SBool)))
+	st.ghost["$visited"] = VSet{empty}
+	st.ghost["$count"] = VScalar{IntLit(0)}
+	st.ghost["$dom0"] = VSet{x.define("dom0", Select(d, m))}
+	st.ghost["$len0"] = VScalar{x.mapLen(st, ins.X.Type(), m)}
+	ghostTypes[x.key+"/$visited"] = &SType{Math: "set", Elem: goT(ins.X.Type().Underlying().(*types.Map).Key())}
+	ghostTypes[x.key+"/$dom0"] = &SType{Math: "set", Elem: goT(ins.X.Type().Underlying().(*types.Map).Key())}
+	ghostTypes[x.key+"/$count"] = intT
+	ghostTypes[x.key+"/$len0"] = intT
 }
 
 func iterKey(r *ssa.Range) string { return "visited." + r.Name() }
@@ -897,6 +909,15 @@ func (x *Exec) execNext(fr *Frame, st *State, ins *ssa.Next) {
 	val, _ := x.mapLookup(st, rng.X.Type(), m, k)
 	st.ghost[iterKey(rng)] = VSet{x.define("visited", Ite(ok, Store(visited, k, True), visited))}
 	st.ghost["lastkey."+rng.Name()] = kv
+	st.ghost["$visited"] = st.ghost[iterKey(rng)]
+	if cnt, has := st.ghost["$count"]; has {
+		c := cnt.(VScalar).T
+		unmodified := Eq(md, st.ghost["$dom0"].(VSet).T)
+		len0 := st.ghost["$len0"].(VScalar).T
+		x.assume(Implies(And(st.pc, unmodified, ok), Lt(c, len0)))
+		x.assume(Implies(And(st.pc, unmodified, Not(ok)), Eq(c, len0)))
+		st.ghost["$count"] = VScalar{x.define("count", Ite(ok, Add(c, IntLit(1)), c))}
+	}
 	fr.vals[ins] = VTuple{[]Value{VScalar{ok}, kv, val}}
 }
 
